@@ -10,6 +10,11 @@ int main(int argc, char ** argv) {
 #endif
 	mmd_engine * e = mmd_engine_create_with_dstring(d, ext);
 	mmd_engine_parse_string(e);
+	if (argc > 2) {
+		DString * out = d_string_new("");
+		mmd_engine_export_token_tree(out, e, atoi(argv[2]));
+		printf("OUTPUT: %s\n", out->str);
+	}
 	token_tree_describe(mmd_engine_root(e), d->str);
 	return 0;
 }
